@@ -459,8 +459,8 @@ theorem loadDoc_complete {d : Nat} {es : List (Bytes × Obj)} {ebs : Bytes} (ver
   have g9 : AllPlain (loadedOf val [] (tableOf secs).sorted) :=
     allPlain_loadedOf val _ [] (by intro p hp; simp at hp)
   have g6 : (setEntries [] es).has ENCRYPT = false := by simp [Dict.has, henc]
-  obtain ⟨mark, hload⟩ := loadDocWith_of_parts id file ver _ (tableOf secs) _ (setEntries [] es) _
-    g0 g1 g2 g2' g3 hprev (by simpa [U32] using hmax) g6 g7 rfl g9
+  obtain ⟨mark, hload⟩ := loadDocWith_of_parts id id file ver _ (tableOf secs) _ (setEntries [] es) _
+    g0 g1 g2 g2' g3 hprev (by simpa [U32] using hmax) g6 g7 rfl rfl g9
   refine ⟨_, hload, rfl, rfl, rfl, rfl, ?_, ?_⟩
   · intro k e hke
     show Objects.get (asObjects _) (k, (val k).1) = some (val k).2
